@@ -23,8 +23,15 @@ def gen(rng, i, tier):
     grow = np.abs(rng.normal(size=n)) * (rng.random(n) < 0.5)
     xo, _ = grid(rng, n=int(rng.integers(1, 8)) + 1)
     hi = None
-    if rng.random() < 0.3:
-        hi = float(x[int(rng.integers(len(x) // 2, len(x)))])
+    if rng.random() < 0.4:
+        k = int(rng.integers(len(x) // 2, len(x)))
+        r = rng.random()
+        if r < 0.4:
+            hi = float(x[k])                                   # on a grid point
+        elif r < 0.7 and k + 1 < len(x):
+            hi = float(x[k] + rng.uniform(0.1, 0.9) * (x[k + 1] - x[k]))   # a round number between two grid points
+        else:
+            hi = float(x[-1] + rng.uniform(0.05, 0.5) * (x[-1] - x[0]))  # beyond the end of the data
     return dict(x=tolist(x), y=tolist(y), y2=tolist(y2), e=tolist(e), grow=tolist(grow), xo=tolist(xo), c=float(abs(rng.normal()) * 3),
                 hi=hi, lorch=bool(rng.random() < 0.4), grid=gk, window=hi is not None)
 
